@@ -22,6 +22,19 @@ MUTATOR_METHODS = {"append", "extend", "insert", "pop", "remove", "clear", "upda
                    "popitem", "sort", "reverse"}
 
 
+# types whose instances support everything fill does with a validated value: ordering comparisons, float arithmetic,
+# math.isnan/isinf (numbers.Real and narrower), or hashing / use as a dict key (strings).  `numbers.Number` and
+# `numbers.Complex` are NOT in the list: a complex value passes them and `q > self.max` raises after the state changed.
+SAFE_TYPES = {"numbers.Real", "numbers.Rational", "numbers.Integral", "float", "int", "bool", "basestring", "str", "unicode", "bytes",
+              "numpy.ndarray", "np.ndarray"}
+
+
+def safe_type(t):
+    if isinstance(t, ast.Tuple):
+        return all(safe_type(x) for x in t.elts)
+    return ast.unparse(t) in SAFE_TYPES
+
+
 def own_store_targets(stmt, selfname="self"):
     """Targets of stores into the node's own state performed by this simple statement."""
     out = []
@@ -153,7 +166,7 @@ def analyse(repo, rep, rule, cls, f, validated_params=()):
                 out &= p
             return out
         if isinstance(test, ast.Call) and call_name(test) == "isinstance" and len(test.args) == 2 and edge_true:
-            if isinstance(test.args[0], ast.Name):
+            if isinstance(test.args[0], ast.Name) and safe_type(test.args[1]):
                 out.add(test.args[0].id)
         return out
 
